@@ -39,12 +39,12 @@ func vCacheView(c *dbCache, k byte) (bool, byte) {
 }
 
 // C05(5): committed metadata is read back exactly, whatever the flush schedule: a sequence of 2 (thorough 3)
-// committed transactions over 2 (3) keys, each putting / deleting / leaving each key (through the real putKey /
+// committed transactions over 2 keys, each putting / deleting / leaving each key (through the real putKey /
 // deleteKey), each commit either going to the cache or triggering a flush (arbitrary), with an optional explicit
 // flush in between: after every step a reader sees exactly the map obtained by applying the transactions in order.
 //verif:opts reach=end noverride=dbcache.go:dbCache.commitTreaps:vStubCommitTreaps;blockio.go:blockStore.syncBlocks:vStubSyncBlocks;dbcache.go:dbCache.needsFlush:vStubNeedsFlush
 func VH_dbcache_commit_matches_map_model() {
-	nKeys := 2 + vTier()
+	nKeys := 2 // two keys in both tiers; the thorough tier adds a third transaction
 	var has [4]bool
 	var val [4]byte
 	for k := 0; k < 4; k++ {
